@@ -6,61 +6,6 @@ import MpVerif.C18.GenTypes
 namespace MpVerif.C18.Frozen
 open MpVerif.C18
 
-def helperShape_BasicExprFactory_Copy : Sx :=
-  .n "CXXMethodDecl" "" [
-   .n "ParmVarDecl" "src : fmt::StringRef" [],
-   .n "ParmVarDecl" "dst : char *" [],
-   .n "CompoundStmt" "" [
-    .n "DeclStmt" "" [
-     .n "VarDecl" "s : const char *" [
-      .n "CXXMemberCallExpr" "" [
-       .n "MemberExpr" "data" [
-        .n "DeclRefExpr" "src" []]]]],
-    .n "DeclStmt" "" [
-     .n "VarDecl" "size : std::size_t" [
-      .n "CXXMemberCallExpr" "" [
-       .n "MemberExpr" "size" [
-        .n "DeclRefExpr" "src" []]]]],
-    .n "CallExpr" "" [
-     .n "DeclRefExpr" "copy" [],
-     .n "DeclRefExpr" "s" [],
-     .n "BinaryOperator" "+" [
-      .n "DeclRefExpr" "s" [],
-      .n "DeclRefExpr" "size" []],
-     .n "CallExpr" "" [
-      .n "DeclRefExpr" "make_ptr" [],
-      .n "DeclRefExpr" "dst" [],
-      .n "DeclRefExpr" "size" []]],
-    .n "BinaryOperator" "=" [
-     .n "ArraySubscriptExpr" "" [
-      .n "DeclRefExpr" "dst" [],
-      .n "DeclRefExpr" "size" []],
-     .n "IntegerLiteral" "0" []]]]
-
-def helperShape_BasicExprFactory_MakeStringLiteral : Sx :=
-  .n "CXXMethodDecl" "" [
-   .n "ParmVarDecl" "value : fmt::StringRef" [],
-   .n "CompoundStmt" "" [
-    .n "DeclStmt" "" [
-     .n "VarDecl" "impl : StringLiteral::Impl *" [
-      .n "CallExpr" "" [
-       .n "UnresolvedMemberExpr" "" [],
-       .n "DeclRefExpr" "STRING" [],
-       .n "CallExpr" "" [
-        .n "DeclRefExpr" "val" [],
-        .n "CXXMemberCallExpr" "" [
-         .n "MemberExpr" "size" [
-          .n "DeclRefExpr" "value" []]]]]]],
-    .n "CallExpr" "" [
-     .n "DeclRefExpr" "Copy" [],
-     .n "DeclRefExpr" "value" [],
-     .n "MemberExpr" "value" [
-      .n "DeclRefExpr" "impl" []]],
-    .n "ReturnStmt" "" [
-     .n "CallExpr" "" [
-      .n "DeclRefExpr" "Create" [],
-      .n "DeclRefExpr" "impl" []]]]]
-
 def helperShape_CallExpr_arg : Sx :=
   .n "CXXMethodDecl" "" [
    .n "ParmVarDecl" "index : int" [],
@@ -136,24 +81,6 @@ def helperShape_PLTerm_arg : Sx :=
         .n "MemberExpr" "impl" [
          .n "CXXThisExpr" "" []]]]]]]]
 
-def helperShape_PLTerm_breakpoint : Sx :=
-  .n "CXXMethodDecl" "" [
-   .n "ParmVarDecl" "index : int" [],
-   .n "CompoundStmt" "" [
-    .n "CXXStaticCastExpr" "void" [
-     .n "IntegerLiteral" "0" []],
-    .n "ReturnStmt" "" [
-     .n "ArraySubscriptExpr" "" [
-      .n "MemberExpr" "data" [
-       .n "CXXMemberCallExpr" "" [
-        .n "MemberExpr" "impl" [
-         .n "CXXThisExpr" "" []]]],
-      .n "BinaryOperator" "+" [
-       .n "BinaryOperator" "*" [
-        .n "IntegerLiteral" "2" [],
-        .n "DeclRefExpr" "index" []],
-       .n "IntegerLiteral" "1" []]]]]]
-
 def helperShape_PLTerm_num_breakpoints : Sx :=
   .n "CXXMethodDecl" "" [
    .n "CompoundStmt" "" [
@@ -162,22 +89,6 @@ def helperShape_PLTerm_num_breakpoints : Sx :=
       .n "CXXMemberCallExpr" "" [
        .n "MemberExpr" "impl" [
         .n "CXXThisExpr" "" []]]]]]]
-
-def helperShape_PLTerm_slope : Sx :=
-  .n "CXXMethodDecl" "" [
-   .n "ParmVarDecl" "index : int" [],
-   .n "CompoundStmt" "" [
-    .n "CXXStaticCastExpr" "void" [
-     .n "IntegerLiteral" "0" []],
-    .n "ReturnStmt" "" [
-     .n "ArraySubscriptExpr" "" [
-      .n "MemberExpr" "data" [
-       .n "CXXMemberCallExpr" "" [
-        .n "MemberExpr" "impl" [
-         .n "CXXThisExpr" "" []]]],
-      .n "BinaryOperator" "*" [
-       .n "IntegerLiteral" "2" [],
-       .n "DeclRefExpr" "index" []]]]]]
 
 def helperShape_StringLiteral_value : Sx :=
   .n "CXXMethodDecl" "" [
